@@ -21,6 +21,48 @@ CLAIMED = {
  "C14": ("fault_enumeration", "deterministic simulation with cancellation faults: recv futures dropped after k polls (k = 0..5) at sampled byte-arrival positions for every receiving socket type; delivery oracle of C05 plus REQ protocol-state oracle",
          "Every fair-queue socket type with up to 24 abandoned recv calls per run while tagged messages arrive under random segmentation; the concatenation of completed recvs must still be exactly-once/in-order/whole. REQ: after an abandoned recv a further send must be refused with the message intact and nothing on the wire, and the next completed recv must return the reply to the outstanding request.",
          "Cancellation = dropping the future, as select!/timeout/proxy do. Poll budgets enumerated 0..5; arrival positions sampled.", "5/C14"),
+ "C01": ("exploration", "deterministic simulation: messages over a boundary grid of frame lengths pushed through real sockets of every kind under seeded write/read segmentation and back-pressure; wire taps decoded by an independent RFC-23 codec and compared byte-exactly with its encoder",
+         "Every pair of grid lengths {0,1,2,254,255,256,257,8191,8192,8193,65535,65536,131071,131072,131073} and every single length, for 8 emitting and 7 receiving socket kinds, plus drawn shapes up to several MiB; greeting and READY of all 9 socket types x identity {none,1,255} x {accepting, connecting}. The property's own quantifier is over inputs; the simulator adds transport segmentation and the tap oracle, and nothing more is claimed.",
+         "Input space enumerated over the grid only; trusts the independent reference codec.", "5/C01"),
+ "C02": ("exploration", "deterministic simulation with exact control of read boundaries: the same byte stream is fed to real sockets under enumerated and seeded partitions (all 2^15 partitions of a 16-byte suffix, single cuts, cut pairs, byte-at-a-time, block-aligned) and compared with the reference decode of the concatenation",
+         "A scripted peer releases chunk i+1 only once the reader has drained chunk i and the simulation is idle, so the executed partition is exactly the planned one. Includes data in the same segment as the end of the handshake. Receiving kinds PULL, DEALER, SUB, ROUTER, XPUB, REP, REQ.",
+         "Thorough tier enumerates 3 x 2^15 partitions completely; longer streams are sampled.", "5/C02"),
+ "C03": ("exploration", "deterministic simulation with hostile-peer fault injection: structure-aware attack catalogue, exhaustive short strings over a reduced alphabet and random mutations at every handshake stage for every socket type; oracles: panic capture in every task and API call, worker-process survival (stack overflow/abort seen as signals), counting allocator, healthy second connection keeps working",
+         "24 attacks x 3 stages x 9 socket types (undisturbed, then under drawn transport/schedule), all 19607 strings <= 5 over {00,01,02,04,06,05,ff} after greeting and after handshake (thorough), random mutations of valid streams. Largest single allocation after the first hostile byte must stay <= 256 KiB + 64 x bytes sent.",
+         "Stack clause depends on documented parameters: 2 MiB run-thread stack, library built unoptimised. Allocation failure is not injected; request sizes are judged.", "5/C03, 3.10"),
+ "C04": ("fault_enumeration", "deterministic simulation: full configuration grid of scripted handshakes (226800 cells) run through real accept/connect paths under seeded segmentation, compared with an independent admission predicate; plus enumeration of the 144 compatibility queries",
+         "Grid = local type (9) x peer Socket-Type (12 names, unknown, missing) x version (5) x mechanism (4) x signature (3) x identity (5) x first item (3) x side (2). Observables: application message exchanged or not, monitor Accepted/AcceptFailed, connect() result, connection closed by the socket.",
+         "Thorough tier enumerates the grid completely, quick samples it. 'Known mechanism' is read as NULL/PLAIN/CURVE as the statement says.", "5/C04"),
+ "C09": ("exploration", "deterministic simulation: ROUTER socket with 1..4 scripted peers (announced or assigned identities) under seeded schedules; labels checked against the connection a message arrived on, routed sends checked on connection taps snapshotted around every send",
+         "Inbound: first frame constant per connection, equal to the announced identity, distinct across connections, remaining frames verbatim. Outbound: exactly the addressed connection gains exactly the remaining frames; unknown identity (empty, 1, 17, 256 bytes) or departed peer: Err and no tap changes.",
+         "Identities never duplicated by the generator; single-frame sends are outside the statement.", "5/C09"),
+ "C10": ("exploration", "deterministic simulation: PUSH/DEALER/REQ with 0..4 scripted peers joining at seeded times under partial writes; connection taps snapshotted at the instant send returns; strict rotation asserted over windows of stable membership taken from monitor events",
+         "A successful send must have written the complete message to exactly one admitted peer by the time it returns; n consecutive sends over a stable set of n peers reach n distinct peers; with no peer the send fails, hands the message back intact and writes nothing.",
+         "Peers do not depart in this scenario; membership from Accepted events.", "5/C10, B4"),
+ "C11": ("exploration", "deterministic simulation: every subscription history up to length 4 over 9 operations enumerated for PUB and XPUB, longer seeded histories with 1..3 subscribers; publisher probes all first frames at quiescent points; subscriber taps compared with a multiset-prefix reference model",
+         "Operations: subscribe/unsubscribe x topics {'', a, ab, b} and garbage (multi-frame, bad first byte, empty). A probe must reach a subscriber exactly once iff a multiset element is a prefix of its first frame. XPUB: recv returns every subscriber message verbatim, per-connection order (interleaving check).",
+         "Compared only at quiescent points; subscribers accept every write.", "5/C11, B5"),
+ "C12": ("fault_enumeration", "deterministic simulation with back-pressure faults: stall patterns on subscriber pipes (accept k bytes then stall, stall/resume, never drain, broken pipe, co-operative yields) enumerated against message sizes around the 128 KiB mark; publisher completion, healthy-subscriber completeness, ordered-subsequence-prefix oracle on victim taps, counting allocator for the memory bound",
+         "PUB and XPUB. Every send must complete while the victim is still stalled; the subscriber that accepts every write receives every message in order; each victim tap is a byte prefix of the encoding of an order-preserving subsequence; heap growth while publishing 50..149 further messages to a stalled subscriber is bounded independently of their number.",
+         "'Accepts every write' = its pipe never answers Pending. Memory bound 2 x (128 KiB + message) + 64 KiB.", "5/C12, B6"),
+ "C13": ("exploration", "deterministic simulation with connection faults: seeded histories of subscribe/unsubscribe interleaved with publishers joining by accept (background handshake, concurrent with later calls) and by connect, enumerated join points, one publisher failing; per-publisher folded topic counts compared at quiescence",
+         "Every connected publisher's view of the subscription set must be identical and, for histories without duplicate subscribes, equal to the socket's set; a failing peer must not keep the others from being updated.",
+         "With duplicate subscribes only agreement is required.", "5/C13, B5"),
+ "C15": ("exploration", "deterministic simulation: REQ clients - ROUTER | proxy() | DEALER - REP workers with a capture socket, real and scripted endpoints, seeded schedules, segmentation and select! order; verbatim/exactly-once/ordered forwarding checked on front, back and capture connection taps",
+         "Every request reaches a worker exactly once as identity + delimiter + payload verbatim, every reply reaches exactly its client, the capture sink gets one copy of every forwarded message in per-client order, proxy() keeps running.",
+         "Clients/workers do not depart; pipe capacities stay above the largest message (mutual back-pressure deadlock of proxy() is flow control, outside the statement).", "5/C15"),
+ "C16": ("fault_enumeration", "deterministic simulation with connection faults enumerated over every byte offset of the victim's stream x {orderly close, reset, read error, write error} x 9 socket types with live bystanders, plus connect/disconnect churn; clause-keyed oracles on recv history, taps and connection release",
+         "Clauses: others_affected, more_than_one_error, routed_to_failed_peer, sends_keep_failing, not_released, dead_connections_accumulate, hang, no_quiescence. Ten open known findings (orderly end-of-stream never releases the peer for PULL/REP/ROUTER/SUB/XPUB) are listed in known_findings.json with stored replays.",
+         "'Released' is asserted only after the socket has been polled to quiescence after the fault; TCP half-close is not injected.", "5/C16, B7"),
+ "C17": ("fault_enumeration", "deterministic simulation: the 432-cell grid socket type x transport x history prefix x {close, drop} executed in the simulated network and file namespaces through the real bind/accept/close code, repeated under seeded schedules and an injected unlink failure",
+         "At close() return (resp. at quiescence after drop): no listener left and fresh connects refused, IPC socket file removed, every peer connection closed by the socket, no library-spawned task alive, close() reports an injected unlink failure.",
+         "Ports and socket files are the simulator's; kernel and tokio-gated glue lines are not exercised.", "5/C17"),
+ "C18": ("exploration", "deterministic simulation: seeded operation sequences over bind (tcp v4/v6/localhost port 0, fixed port, ipc, duplicate, unresolvable), unbind (bound/unknown), connect-in and message exchange, checked after every operation against a reference model of the bind set in the simulated namespaces",
+         "Return values, binds(), listener set, socket files, connectability of returned endpoints, isolation of unbind, survival of established connections.",
+         "Namespaces are simulated; 'localhost' resolves to 127.0.0.1.", "5/C18"),
+ "C20": ("fault_enumeration", "deterministic simulation with handshake faults enumerated over every byte offset of greeting+READY x {stop, close, garbage} x 9 bound socket types x {tcp, ipc}, 1..3 simultaneous stallers, well-behaved clients before/during/after and an established peer",
+         "At quiescence every well-behaved client has been admitted and exchanged a message, established traffic continues, and the monitor has exactly one AcceptFailed per handshake that failed (none for silent stallers).",
+         "REQ judged with a single well-behaved client.", "5/C20"),
 }
 NOT_YET = {}
 
